@@ -1735,7 +1735,9 @@ class Interp:
         diffs = heap_diff(head_snapshot, dict(fr.locals))
         for oid, fld, what in diffs:
             if (oid, fld) not in allowed and (oid, "*") not in allowed:
-                raise CheckerError(f"{name}: loop body modifies {what} which is not in the loop's modifies list")
+                # a frame condition of the loop specification is violated on this path: an obligation that fails, not a checker error
+                self.ctx.oblige(f"{name}::loop-frame::{what}", False, kind="frame", line=line, props=spec.props,
+                                info=f"loop body modifies {what} which is not in the loop's modifies list")
 
 
 def _assigned_names(loop):
@@ -1841,7 +1843,7 @@ def heap_diff(old_roots, new_roots):
 
 
 _MISSING = object()
-GHOST_FIELDS = {"_options_tlv", "_truth"}  # memo fields the stubs attach to library objects (not program state)
+GHOST_FIELDS = {"_options_tlv", "_truth", "_for_entity"}  # memo fields the stubs attach to library objects (not program state)
 
 
 class LoopSpec:
